@@ -346,15 +346,32 @@ impl Ctl {
         (normal, quiescers)
     }
 
+    /// A task inside an external section: a ready one if there is any, else the first.
     fn external_task(&self) -> Option<(TaskId, bool)> {
         let st = self.st.borrow();
-        st.tasks
-            .iter()
-            .enumerate()
-            .find(|(_, t)| {
-                t.external > 0 && !matches!(t.state, TState::Done | TState::Panicked)
-            })
-            .map(|(i, t)| (i, matches!(t.state, TState::Woken | TState::AtPoint(_))))
+        let mut first = None;
+        for (i, t) in st.tasks.iter().enumerate() {
+            if t.external > 0 && !matches!(t.state, TState::Done | TState::Panicked) {
+                if matches!(t.state, TState::Woken | TState::AtPoint(_)) {
+                    return Some((i, true));
+                }
+                if matches!(t.state, TState::New) {
+                    // spawned, not yet polled by the runtime: its first poll reports in
+                    continue;
+                }
+                first.get_or_insert((i, false));
+            }
+        }
+        first
+    }
+
+    /// The first pending job owned by a task that is inside an external section.
+    fn first_external_job(&self) -> Option<usize> {
+        let ids: Vec<TaskId> = {
+            let st = self.st.borrow();
+            st.tasks.iter().enumerate().filter(|(_, t)| t.external > 0 && !matches!(t.state, TState::Done | TState::Panicked)).map(|(i, _)| i).collect()
+        };
+        ids.into_iter().find_map(|i| self.first_job_of(i))
     }
 
     fn reports(&self) -> u64 {
@@ -390,11 +407,15 @@ impl Ctl {
 impl Controller for Ctl {
     fn register_task(&self, name: &'static str) -> TaskId {
         let mut st = self.st.borrow_mut();
+        // a blob-creation task works on behalf of its parent: spawned inside an external section
+        // (init) it belongs to that section for its whole life; the worker, which init also
+        // spawns, does not
+        let parent_external = st.in_poll.map_or(false, |p| st.tasks[p].external > 0);
         st.tasks.push(TaskInfo {
             name,
             state: TState::New,
             waker: None,
-            external: 0,
+            external: if name == "blob-create" && parent_external { 1 } else { 0 },
             polled: false,
             pending_point: None,
         });
@@ -632,7 +653,7 @@ pub async fn drive(ctl: &Ctl, prefix: &[usize]) -> RunTrace {
             }
             if ready {
                 grant(ctl, id).await;
-            } else if let Some(j) = ctl.first_job_of(id) {
+            } else if let Some(j) = ctl.first_external_job() {
                 // the section's owner waits for its own file operation (e.g. during init); jobs
                 // of other tasks stay where they are: running them here would depend on timing
                 run_job(ctl, j);
@@ -642,7 +663,7 @@ pub async fn drive(ctl: &Ctl, prefix: &[usize]) -> RunTrace {
                 loop {
                     tokio::task::yield_now().await;
                     match ctl.external_task() {
-                        Some((i, false)) if i == id => {}
+                        Some((i, false)) if i == id && ctl.first_external_job().is_none() => {}
                         _ => break,
                     }
                     if t0.elapsed() > Duration::from_secs(20) {
